@@ -184,8 +184,8 @@ class TestManager:
 
         for test_case in test_cases:
             test_case = Path(test_case)
-            self.test_cases_modes[test_case] = test_case.stat().st_mode
             self.check_file_permissions(test_case, [os.F_OK, os.R_OK, os.W_OK], InvalidTestCaseError)
+            self.test_cases_modes[test_case] = test_case.stat().st_mode
             if test_case.parent.is_absolute():
                 raise AbsolutePathTestCaseError(test_case)
             if '..' in test_case.parts:
